@@ -235,8 +235,15 @@ PollRet ==
        ELSE Goto(Owner, "cqo.poll") /\ got' = Append(got, cur[2]) /\ polls' = polls + 1
   /\ UNCH_Q /\ UNCH_A /\ UNCHANGED <<stage, parked, topRuns, botRuns, consumed, leftEarly, kLeftEarly>>
 \* check_panic(id): join the arm (blocks until its coroutine has really finished), then poll goes on
+\* (the hook cq.check_panic sits in front of the join: passing it starts the wait - found by code -> spec trace
+\* validation, the first version of this action modelled the hook as the *end* of the join)
 CheckPanic ==
   /\ pc[Owner] = "cq.check_panic"
+  /\ Goto(Owner, "join_wait")
+  /\ UNCH_Q /\ UNCHANGED <<polls, stage, parked, sent, cancelled, host, kon, armDone, joined, cur>> /\ UNCH_G
+\* internal: the joined arm has finished
+CheckPanicJoined ==
+  /\ pc[Owner] = "join_wait"
   /\ armDone[cur[2]]
   /\ joined' = [joined EXCEPT ![cur[2]] = TRUE] /\ cur' = NoEv /\ Goto(Owner, "cq.poll.pop")
   /\ UNCH_Q /\ UNCHANGED <<polls, stage, parked, sent, cancelled, host, kon, armDone>> /\ UNCH_G
@@ -258,7 +265,7 @@ AStep(m) == ArmTop(m) \/ SendCheck(m) \/ SendYield(m) \/ SpinKernel(m) \/ ArmBot
 OStep == OwnerPoll \/ PollPop \/ PollLoadCnt \/ PollLastPop \/ PollReg \/ PollRepop \/ PollUnreg \/ ParkEnter
          \/ ParkReturn \/ Bottom \/ CheckPanic \/ DropCancel
 Step(a) == IF a = Owner THEN OStep ELSE IF a \in Kernels THEN (SubPush(a) \/ SubTake(a)) ELSE AStep(a)
-Internal(a) == IF a = Owner THEN (PollRet \/ PollFinished) ELSE IF a \in Kernels THEN FALSE ELSE (ArmExit(a) \/ SendResumed(a))
+Internal(a) == IF a = Owner THEN (PollRet \/ PollFinished \/ CheckPanicJoined) ELSE IF a \in Kernels THEN FALSE ELSE (ArmExit(a) \/ SendResumed(a))
 InternalPcs == {"poll.ret", "poll.finished", "arm.exit", "send.resumed"}
 Obs(a) == -1
 Cancel(a) == FALSE /\ UNCHANGED vars
